@@ -537,6 +537,38 @@ func nestings() []c06Placed {
 			r = append(r, c06Placed{"json", fmt.Sprintf("nest/%s/depth=%d", name, d), []byte(doc)}, c06Placed{"enc-json", fmt.Sprintf("nest/%s/depth=%d", name, d), []byte(doc)})
 		}
 	}
+	// nesting hidden inside byte strings (invisible to the CBOR decoder's own
+	// depth limit): bstr in bstr, and tag 24 "encoded CBOR data item" layers,
+	// with a map or a complete valid token innermost
+	for _, innerName := range []string{"empty-map", "claims"} {
+		for _, layer := range []string{"bstr", "tag24-bstr", "tag24-bstr-in-map"} {
+			for _, maxLen := range []int{200, 4000, 65000} {
+				inner := []byte{0xa0}
+				if innerName == "claims" {
+					inner = baseValid(P2, 0).WireBytes()
+				}
+				depth := 0
+				for {
+					var next []byte
+					switch layer {
+					case "bstr":
+						next = icbor.Encode(icbor.Bstr(inner))
+					case "tag24-bstr":
+						next = icbor.Encode(icbor.Tag(24, icbor.Bstr(inner)))
+					default:
+						next = icbor.Encode(icbor.Map(icbor.P(icbor.U(9999), icbor.Tag(24, icbor.Bstr(inner)))))
+					}
+					if len(next) > maxLen {
+						break
+					}
+					inner = next
+					depth++
+				}
+				d := fmt.Sprintf("nest/%s(%s)/depth=%d", layer, innerName, depth)
+				r = append(r, c06Placed{"cbor", d, inner}, c06Placed{"enc-cbor", d, inner}, c06Placed{"cose", "payload/" + d, icbor.Encode(c05Envelope(inner))})
+			}
+		}
+	}
 	r = append(r, c06Placed{"json", "nest/array-open/depth=65536", []byte(strings.Repeat("[", 65536))}, c06Placed{"enc-json", "nest/array-open/depth=65536", []byte(strings.Repeat("[", 65536))})
 	return r
 }
@@ -575,7 +607,7 @@ func bigOnes() []c06Placed {
 		}
 	}
 	// many-key maps
-	for _, n := range []int{1000, 10000, 16000} {
+	for _, n := range []int{1000, 10000, 16000, 24000} {
 		var ps [][2]*icbor.Node
 		for i := 0; i < n; i++ {
 			ps = append(ps, icbor.P(icbor.U(uint64(100000+i)), icbor.U(0)))
@@ -601,6 +633,18 @@ func bigOnes() []c06Placed {
 		sb.WriteString("}")
 		if sb.Len() <= c06MaxLen {
 			r = append(r, c06Placed{"json", fmt.Sprintf("many-members/%d", n/2), []byte(sb.String())}, c06Placed{"enc-json", fmt.Sprintf("many-members/%d", n/2), []byte(sb.String())})
+		}
+		// many DISTINCT names, each used twice (first all of them, then all again)
+		sb.Reset()
+		sb.WriteString(`{"eat-profile":"` + P2Name + `"`)
+		for rep := 0; rep < 2; rep++ {
+			for i := 0; i < n/4; i++ {
+				fmt.Fprintf(&sb, `,"k%d":%d`, i, rep)
+			}
+		}
+		sb.WriteString("}")
+		if sb.Len() <= c06MaxLen {
+			r = append(r, c06Placed{"json", fmt.Sprintf("distinct-members-twice/%d", n/4), []byte(sb.String())}, c06Placed{"enc-json", fmt.Sprintf("distinct-members-twice/%d", n/4), []byte(sb.String())})
 		}
 		sb.Reset()
 		sb.WriteString(`{"eat-profile":"` + P2Name + `"`)
